@@ -340,14 +340,22 @@ impl Timestamp {
     /// system clock jumps backward (e.g. due to NTP correction).
     pub fn now() -> Self {
         use n0_future::time::SystemTime;
+        #[cfg(iroh_verif)]
+        verif_hooks::pause(verif_hooks::Point::Clock);
         let micros = SystemTime::now()
             .duration_since(SystemTime::UNIX_EPOCH)
             .expect("system time before UNIX epoch")
             .as_micros() as u64;
+        #[cfg(iroh_verif)]
+        let micros = verif_hooks::clock_override().unwrap_or(micros);
+        #[cfg(iroh_verif)]
+        verif_hooks::pause(verif_hooks::Point::Load);
         // Ensure strictly monotonic: if the clock went backward or two calls
         // land in the same microsecond, we increment from the last value.
         let mut last = LAST_TIMESTAMP.load(Ordering::Relaxed);
         loop {
+            #[cfg(iroh_verif)]
+            verif_hooks::pause(verif_hooks::Point::Cas);
             let next = micros.max(last + 1);
             match LAST_TIMESTAMP.compare_exchange_weak(
                 last,
@@ -379,6 +387,74 @@ impl Timestamp {
     /// Parses from big-endian bytes.
     pub fn from_be_bytes(bytes: [u8; 8]) -> Self {
         Self(u64::from_be_bytes(bytes))
+    }
+}
+
+/// Verification hooks for [`Timestamp::now`], compiled only with `--cfg iroh_verif`.
+///
+/// All hook state is thread-local except [`set_last_timestamp`]; with no hook armed
+/// [`Timestamp::now`] behaves exactly as without the cfg.
+#[cfg(iroh_verif)]
+pub mod verif_hooks {
+    use std::cell::{Cell, RefCell};
+
+    use super::{LAST_TIMESTAMP, Ordering};
+
+    /// A pause point inside [`super::Timestamp::now`].
+    #[derive(Debug, Clone, Copy, PartialEq, Eq)]
+    pub enum Point {
+        /// Before the wall clock is read.
+        Clock,
+        /// Before the initial load of the last-timestamp cell.
+        Load,
+        /// Before `last + 1` is computed and the compare-exchange is attempted (every iteration).
+        Cas,
+    }
+
+    /// A callback invoked at every pause point reached by the current thread.
+    pub type PauseFn = Box<dyn FnMut(Point)>;
+
+    thread_local! {
+        static CLOCK: Cell<Option<u64>> = const { Cell::new(None) };
+        static PAUSE: RefCell<Option<PauseFn>> = const { RefCell::new(None) };
+    }
+
+    /// Overrides the wall-clock reading (microseconds) seen by `Timestamp::now` on this thread.
+    pub fn set_clock_override(micros: Option<u64>) {
+        CLOCK.with(|c| c.set(micros));
+    }
+
+    /// Installs (or removes) the pause callback of this thread.
+    pub fn set_pause(f: Option<PauseFn>) {
+        PAUSE.with(|p| *p.borrow_mut() = f);
+    }
+
+    /// Sets the process-wide last-timestamp cell.
+    pub fn set_last_timestamp(micros: u64) {
+        LAST_TIMESTAMP.store(micros, Ordering::SeqCst);
+    }
+
+    /// Reads the process-wide last-timestamp cell.
+    pub fn last_timestamp() -> u64 {
+        LAST_TIMESTAMP.load(Ordering::SeqCst)
+    }
+
+    pub(super) fn clock_override() -> Option<u64> {
+        CLOCK.with(|c| c.get())
+    }
+
+    pub(super) fn pause(point: Point) {
+        // The callback is taken out while it runs so that it may itself call `Timestamp::now`.
+        let f = PAUSE.with(|p| p.borrow_mut().take());
+        if let Some(mut f) = f {
+            f(point);
+            PAUSE.with(|p| {
+                let mut slot = p.borrow_mut();
+                if slot.is_none() {
+                    *slot = Some(f);
+                }
+            });
+        }
     }
 }
 
